@@ -105,16 +105,16 @@ def op_from_spec(terms):
 
 
 OPS = [
-    # commuting sets
-    [(((0, "Z"),), 2), (((1, "Z"),), -4), (((0, "Z"), (1, "Z")), 6)],
-    [(((0, "X"), (1, "X")), 2), (((0, "Y"), (1, "Y")), 2), ((), 4)],
-    [((), -2), (((0, "Y"),), 4)],
-    [(((0, "X"), (1, "Y")), -2), (((0, "Y"), (1, "X")), 6)],
+    # commuting sets (odd k = odd multiples of pi/4: generic, cos != sin != 0; never a full period)
+    [(((0, "Z"),), 1), (((1, "Z"),), -3), (((0, "Z"), (1, "Z")), 5)],
+    [(((0, "X"), (1, "X")), 3), (((0, "Y"), (1, "Y")), 1), ((), 3)],
+    [((), -1), (((0, "Y"),), 3)],
+    [(((0, "X"), (1, "Y")), -1), (((0, "Y"), (1, "X")), 7)],
     # non-commuting sets
-    [(((0, "X"),), 2), (((0, "Z"),), 4)],
-    [(((0, "X"), (1, "Z")), 2), (((1, "X"),), -4), (((0, "Z"),), 2), ((), 2)],
-    [(((0, "Y"),), 4), (((0, "Z"), (1, "Y")), 2), (((1, "Z"),), 6)],
-    [(((0, "X"), (2, "X")), 4), (((1, "Z"), (2, "Y")), -2), (((0, "Z"),), 2)],
+    [(((0, "X"),), 1), (((0, "Z"),), 3)],
+    [(((0, "X"), (1, "Z")), 1), (((1, "X"),), -3), (((0, "Z"),), 2), ((), 1)],
+    [(((0, "Y"),), 3), (((0, "Z"), (1, "Y")), 1), (((1, "Z"),), 6)],
+    [(((0, "X"), (2, "X")), 3), (((1, "Z"), (2, "Y")), -1), (((0, "Z"),), 1)],
 ]
 
 
@@ -212,16 +212,18 @@ def gen_fermion_jobs(chk, jobs, meta, rng):
     from tangelo.toolboxes.operators import FermionOperator
     from tangelo.toolboxes.qubit_mappings.mapping_transform import fermion_to_qubit_mapping
     cases = [
-        ("jw", [(((0, 1), (1, 0)), 4), (((1, 1), (0, 0)), 4)], {}),
-        ("jw", [(((0, 1), (0, 0)), 2), (((1, 1), (1, 0)), -4), (((0, 1), (2, 0)), 4), (((2, 1), (0, 0)), 4)], {}),
-        ("bk", [(((0, 1), (1, 0)), 4), (((1, 1), (0, 0)), 4), (((2, 1), (2, 0)), 2)], {"n_spinorbitals": 4}),
-        ("jkmn", [(((0, 1), (1, 0)), 4), (((1, 1), (0, 0)), 4), (((3, 1), (3, 0)), 2)], {"n_spinorbitals": 4}),
+        ("jw", [(((0, 1), (1, 0)), 2), (((1, 1), (0, 0)), 2)], {}),
+        ("jw", [(((0, 1), (0, 0)), 2), (((1, 1), (1, 0)), -6), (((0, 1), (2, 0)), 6), (((2, 1), (0, 0)), 6)], {}),
+        ("bk", [(((0, 1), (1, 0)), 2), (((1, 1), (0, 0)), 2), (((2, 1), (2, 0)), 6)], {"n_spinorbitals": 4}),
+        ("jkmn", [(((0, 1), (1, 0)), 6), (((1, 1), (0, 0)), 6), (((3, 1), (3, 0)), 2)], {"n_spinorbitals": 4}),
     ]
     for mapping, fterms, opts in cases:
         for steps in (1, 2):
             for order in (1, 2):
                 for tmode in ("scalar", "dict"):
-                    mult = steps * (2 if order == 2 else 1) * 2
+                    # the hopping terms carry a factor 1/2 under JW/BK/JKMN: fterm k is chosen odd*2 or odd so that,
+                    # after time, step and half-step division, every emitted factor index is ODD (generic angle)
+                    mult = steps * (2 if order == 2 else 1)
                     fop = FermionOperator()
                     for t, k in fterms:
                         fop += FermionOperator(t, k_to_angle(k, M))
@@ -229,7 +231,7 @@ def gen_fermion_jobs(chk, jobs, meta, rng):
                         time = float(mult)
                         tms = {t: mult for t, _ in fterms}
                     else:
-                        tms = {t: mult * (1 + j % 2) for j, (t, _) in enumerate(fterms)}
+                        tms = {t: mult * (1 + 2 * (j % 2)) for j, (t, _) in enumerate(fterms)}
                         # hermitian pairs must share their time for the generator to stay Hermitian
                         tms = {t: tms[tuple(sorted([t, tuple((p, 1 - d) for p, d in reversed(t))]))[0]] for t in tms}
                         time = {t: float(v) for t, v in tms.items()}
@@ -326,6 +328,18 @@ def run(chk):
         sub = "controlled" if j["ctrl"] else "uncontrolled"
         chk.violation("%s:%s:%s" % (m["kind"], sub, v), "emitted circuit != product of exp(-i c_j P_j): %s" % v,
                       {"job": j, "info": m["info"]})
+    # vacuity guard: a job whose factors are all multiples of pi is (up to sign) the identity and proves little
+    triv = {}
+    for j in jobs:
+        kd = meta[j["id"]]["kind"]
+        nt = any(f["k"] % (M // 2) for f in j["factors"] if any(f["w"]))
+        t = triv.setdefault(kd, [0, 0])
+        t[0] += 1
+        t[1] += 1 if nt else 0
+    chk.part("nontrivial_jobs", **{k: "%d/%d" % (v[1], v[0]) for k, v in triv.items()})
+    for k, v in triv.items():
+        if v[1] * 2 < v[0]:
+            raise tlc.TLCError("vacuity: fewer than half of the %s jobs have a non-trivial angle (%d/%d)" % (k, v[1], v[0]))
     bad_ctl = [c["id"] for c in ctl if verdicts[c["id"]].startswith("ok")]
     chk.part("negative_controls", corrupted=len(ctl), rejected=len(ctl) - len(bad_ctl))
     if bad_ctl:
